@@ -3086,24 +3086,23 @@ impl<'a, R: FileManager> FrontendCtx<'a, R> {
         })? {
             return Ok(Runtype::never());
         }
-        let (head, tail) = semtype_to_runtypes(
-            ctx,
-            &access_st,
-            // TODO: do we need this?
-            &RuntypeUUID {
-                ty: RuntypeName::Address(TypeAddress {
-                    file: anchor.f.clone(),
-                    name: "AnyName".into(),
-                }),
-                type_arguments: vec![],
-            },
-            &mut self.counter,
-        )
-        .map_err(|any| {
-            self.box_error(anchor, DiagnosticInfoMessage::AnyhowError(any.to_string()))
-        })?;
+        // The result is returned inline, but when it refers to itself those references need a
+        // definition to point at: give it a generated name of its own (a fixed placeholder name
+        // was never registered, leaving references that nothing resolves).
+        self.counter += 1;
+        let head_name = RuntypeUUID {
+            ty: RuntypeName::SemtypeRecursiveGenerated(self.counter),
+            type_arguments: vec![],
+        };
+        let (head, tail, head_is_recursive) =
+            semtype_to_runtypes(ctx, &access_st, &head_name, &mut self.counter).map_err(|any| {
+                self.box_error(anchor, DiagnosticInfoMessage::AnyhowError(any.to_string()))
+            })?;
         for t in tail {
             self.insert_definition(t.name.clone(), t.schema)?;
+        }
+        if head_is_recursive {
+            return self.insert_definition(head.name, head.schema);
         }
         Ok(head.schema)
     }
